@@ -278,7 +278,7 @@ func writeComputedFieldExpression(w *formatting.IndentedWriter, expression dsl.E
 			w.WriteString(" ")
 
 			requiresParentheses = false
-			if r, ok := t.Right.(*dsl.BinaryExpression); ok && r.Operator.Precedence() < t.Operator.Precedence() {
+			if r, ok := t.Right.(*dsl.BinaryExpression); ok && r.Operator.Precedence() <= t.Operator.Precedence() {
 				requiresParentheses = true
 			}
 
